@@ -213,6 +213,19 @@ def generate(g, tier):
     for nm in ['txt', 'yaml', 'txt.txt'.replace('.txt', ''), 'a_txt']:
         files = {'proj/main.txt': f'START lib.{nm}\nSTRING b', f'proj/lib/{nm}.txt': 'STRING inner', f'proj/lib.txt': 'STRING decoy'}
         cases.append(dict(op='compile_file', file='proj/main.txt', files=files, meta=dict(family='odd-names', exp=['ok', ['STRING inner', 'STRING b'], [], {}])))
+    # a file is pasted into the state as it is: the SYSTEM variable $DEFAULT_DELAY the importer has set is what the imported file
+    # reads, and what the file sets is what the importer reads afterwards (all three commands; imports inside blocks and functions)
+    for kw in ('START', 'STARTENV', 'STARTCODE'):
+        for where in ('top', 'if', 'func', 'repeat'):
+            for setin in (True, False):
+                a, b = r.choice([75, 20, 5]), r.choice([30, 40, 1])
+                lib = '$STRING "lib sees "+$DEFAULT_DELAY' + (f'\nDEFAULT_DELAY {b}\n$STRING "lib now "+$DEFAULT_DELAY' if setin else '')
+                imp = {'top': [f'{kw} lib'], 'if': ['IF TRUE', f'    {kw} lib'], 'func': ['FUNC ld', f'    {kw} lib', 'RUN ld'], 'repeat': ['REPEAT 1', f'    {kw} lib']}[where]
+                main = [f'DEFAULT_DELAY {a}'] + imp + ['$STRING "main sees "+$DEFAULT_DELAY']
+                libout = [f'STRING lib sees {a}'] + ([f'DEFAULT_DELAY {b}', f'STRING lib now {b}'] if setin else [])
+                out = [f'DEFAULT_DELAY {a}'] + ([] if kw == 'STARTENV' else libout) + [f'STRING main sees {b if setin else a}']
+                cases.append(dict(op='compile_file', file='proj/main.txt', files={'proj/main.txt': '\n'.join(main), 'proj/lib.txt': lib},
+                                  meta=dict(family='sysvar-across-import', exp=['ok', out, [], None])))
     return cases
 
 
